@@ -8,6 +8,8 @@ def _accept(path, prop, cls, replay_file):
         v = replay_file(path, quiet=True)
     except Exception:
         return False
+    if any(x["class"].startswith("harness-") for x in v):
+        return False
     return any(prop in x["props"] and x["class"] == cls for x in v)
 
 
@@ -49,7 +51,7 @@ def _scenario_candidates(sc):
         for nt in range(1, sc["threads"]):
             c = copy.deepcopy(sc)
             c["threads"] = nt
-            if isinstance(c["strategy"], dict) and ("Forced" in c["strategy"] or "Explicit" in c["strategy"]):
+            if isinstance(c["strategy"], dict) and "Forced" in c["strategy"]:
                 c["strategy"] = {"Sticky": 4}
             yield f"threads -> {nt}", c
     if isinstance(sc["width"], dict) and "Jitter" in sc["width"]:
@@ -141,6 +143,45 @@ def minimise(path, prop, cls, replay_file, log, budget_s=60):
         log("  (the recorded replay did not reproduce in a fresh process: keeping the original file; this is a harness problem)")
         os.remove(tmp)
         return None
+    # 1. schedule: forced list -> explicit pre-emption list (robust against later changes of the instance)
+    def shrink_schedule():
+        nonlocal best, steps
+        sc = best["replay"]["scenario"]
+        if not (sc.get("parallel") and isinstance(sc["strategy"], dict)):
+            return
+        if "Forced" in sc["strategy"]:
+            pre = _schedule_to_explicit(sc["strategy"]["Forced"])
+            c = copy.deepcopy(sc)
+            c["strategy"] = {"Explicit": pre}
+            got = try_candidate(c)
+            if not got:
+                return
+            best = got
+            steps += 1
+        elif "Explicit" in sc["strategy"]:
+            pre = sc["strategy"]["Explicit"]
+        else:
+            return
+        chunk = max(1, len(pre) // 2)
+        while chunk >= 1 and time.time() - t0 < budget_s:
+            i = 0
+            changed = False
+            while i < len(pre) and time.time() - t0 < budget_s:
+                cand_pre = pre[:i] + pre[i + chunk:]
+                c = copy.deepcopy(best["replay"]["scenario"])
+                c["strategy"] = {"Explicit": cand_pre}
+                got = try_candidate(c)
+                if got:
+                    best = got
+                    pre = cand_pre
+                    changed = True
+                    steps += 1
+                else:
+                    i += chunk
+            if chunk == 1 and not changed:
+                break
+            chunk = chunk // 2 if chunk > 1 else 1
+    shrink_schedule()
     progress = True
     while progress and time.time() - t0 < budget_s:
         progress = False
@@ -153,35 +194,7 @@ def minimise(path, prop, cls, replay_file, log, budget_s=60):
                 steps += 1
                 progress = True
                 break
-    # schedule: forced list -> explicit pre-emption list, then drop pre-emptions one by one
-    sc = best["replay"]["scenario"]
-    if sc.get("parallel") and isinstance(sc["strategy"], dict) and "Forced" in sc["strategy"] and time.time() - t0 < budget_s:
-        pre = _schedule_to_explicit(sc["strategy"]["Forced"])
-        c = copy.deepcopy(sc)
-        c["strategy"] = {"Explicit": pre}
-        got = try_candidate(c)
-        if got:
-            best = got
-            i = 0
-            chunk = max(1, len(pre) // 2)
-            while chunk >= 1 and time.time() - t0 < budget_s:
-                i = 0
-                changed = False
-                while i < len(pre) and time.time() - t0 < budget_s:
-                    cand_pre = pre[:i] + pre[i + chunk:]
-                    c = copy.deepcopy(best["replay"]["scenario"])
-                    c["strategy"] = {"Explicit": cand_pre}
-                    got = try_candidate(c)
-                    if got:
-                        best = got
-                        pre = cand_pre
-                        changed = True
-                        steps += 1
-                    else:
-                        i += chunk
-                if chunk == 1 and not changed:
-                    break
-                chunk = chunk // 2 if chunk > 1 else (1 if changed else 0)
+    shrink_schedule()
     if os.path.exists(tmp):
         os.remove(tmp)
     if steps == 0:
